@@ -590,7 +590,20 @@ class Scheduler:
                 dependency.target = job
                 dependency.loop = self.loop
                 dependency.origin.dependents.add(dependency)
+                if _verif.ACTIVE:
+                    _verif.emit(
+                        "sched.dep.add",
+                        ident=job.identifier,
+                        origin=type(dependency.origin).__name__,
+                    )
                 dependency.check()
+                if _verif.ACTIVE:
+                    _verif.emit(
+                        "sched.dep.check",
+                        ident=job.identifier,
+                        origin=type(dependency.origin).__name__,
+                        status=dependency.currentstatus.name,
+                    )
         else:
             job._readyEvent.set()
             job.state = JobState.READY
